@@ -18,6 +18,7 @@ LEVEL_TEXT = ("Held on every generated script of the run: subscribe / stop-subsc
               "every idle point its holdings must equal the requested set while the subscriber runs and be empty when it does not; "
               "entry contents, destinations and refresh gaps are checked on every datagram. Scripts are sampled")
 LEVEL_NOTE = "trusts the model server in this module and pv/refwire.py; no duplicate subscribe of one (eventgroup, server) pair, as the quantifier states"
+TIEBREAK_VARIANTS = True  # thorough tier: some shards run equal-deadline timers LIFO / in seeded random order
 RULE = (
     "scripts of 3-30 requests over {subscribe, stop-subscribe} x 4 eventgroups x 4 servers and {start, stop}; placement classes new "
     "instant / same iteration / 1-3 loop iterations later in the same instant / around the next refresh tick (also 1-3 iterations "
